@@ -11,6 +11,7 @@ from . import base
 from .c06 import FIXED
 
 PROP = "C17"
+SOLVER = {'bounds': 'statistics statements: symbolic L (lines), T (characters), R (registers) >= 0 in linear integer arithmetic, no bound; recount on every output of the enumerated families'}
 
 ASSUMPTIONS = [
     "E2: the assignments to num_lines / num_registers / num_bytes at the end of CompilerPassGatherCode.get_code are extracted from the AST of the current tree and executed on an abstract text: L >= 0 non-empty lines without line breaks, T >= L characters in total, joined by single '\\n' (so len(s) = T + max(L-1, 0) and s.splitlines() has L entries), and an abstract register list of length R; z3 (linear integer arithmetic) proves num_lines == L, num_bytes == T + 2*max(L-1, 0), num_registers == R for all L, T, R",
@@ -50,6 +51,19 @@ def extract_statistics_statements():
     return []
 
 
+Q = dict(queries=0, solver_s=0.0)
+
+
+def _chk(s):
+    import time as _t
+
+    t0 = _t.time()
+    r = s.check()
+    Q["queries"] += 1
+    Q["solver_s"] += _t.time() - t0
+    return r
+
+
 def e2_obligation():
     stmts = extract_statistics_statements()
     names = [st.targets[0].id for st in stmts]
@@ -84,7 +98,7 @@ def e2_obligation():
         s.add(L >= 0, T >= L, R >= 0)
         want_bytes = T + 2 * z3.If(L >= 1, L - 1, 0)
         s.add(z3.Or(nl != L, nr != R, nb != want_bytes))
-        r = str(s.check())
+        r = str(_chk(s))
         if r == "sat":
             m = s.model()
             res["result"] = "sat"
@@ -180,7 +194,7 @@ def tail_obligation():
                         s = z3.Solver()
                         s.add(*asserts)
                         s.add(z3.Or(term(r.get("num_lines", -1)) != L, term(r.get("num_bytes", -1)) != true_bytes, term(r.get("num_registers", -1)) != z3.Int("R")))
-                        rr = str(s.check())
+                        rr = str(_chk(s))
                         if rr == "sat":
                             m = s.model()
                             res["result"] = "sat"
@@ -366,6 +380,7 @@ def run(tier: str) -> int:
         outputs_recounted=outputs,
         programs=len(items),
         functions_encoded=["generate_code.CompilerPassGatherCode.get_code (statistics statements)"],
+        queries=Q["queries"], solver_s=round(Q["solver_s"], 3),
         exhaustive=False,
     )
     return rep.finish()
